@@ -14,7 +14,7 @@ RULE = ("seeded gen_coords runs over generated topologies (1-3 molecule types: s
         "(schedule signature, event-log digest)")
 ASSUMPTIONS = wa.ASSUMPTIONS
 REAL_VS_STUB = wa.REAL_VS_STUB
-PROBES = wa.PROBES + ["earlier_call_same_topology_paths", "user_grid", "start_option", "coords_supplied", "density_box", "build_file"]
+PROBES = wa.PROBES + ["cwd_with_decoy_includes", "earlier_call_same_topology_paths", "user_grid", "start_option", "coords_supplied", "density_box", "build_file"]
 PROFILE = {}
 
 
@@ -42,6 +42,12 @@ def gen_job(verif_seed, tier, index):
         jobgen.add_user_templates(job, g)
     if job.get("coord_text") is None and not job.get("build_spec") and g.random() < 0.12:
         jobgen.add_pre_variant(job, g)
+    if not job.get("pre_spec") and g.random() < 0.1 and len(job["spec"]["moltypes"]) >= 2:
+        # topology addressed from another working directory in which same-named include files lie around
+        keep = job.get("pre_spec")
+        if jobgen.add_pre_variant(job, g, "shorter"):
+            job["cwd_decoy"] = job.pop("pre_spec")
+            job.pop("pre_kind", None)
     if job.get("coord_text") is None:
         if g.random() < 0.2:
             jobgen.add_user_grid(job, g)
